@@ -26,6 +26,12 @@ Theorem C45_caught_up_converges :
 Proof. exact caught_up_converges. Qed.
 Print Assumptions C45_caught_up_converges.
 
+Theorem C45_converges_after_retries :
+  forall es k, let s := cluster_step (fold_left cluster_step (repeat CReplicateFail k) (cluster_run es)) CReplicateOk in
+    c_swapped s = false -> hd_error (c_applied s) = hd_error (c_log s).
+Proof. exact converges_after_retries. Qed.
+Print Assumptions C45_converges_after_retries.
+
 Theorem C45_replica_heads_real :
   forall h0 es, heads_real (r_replica (repl_run h0 es)) (r_remote_hist (repl_run h0 es)) = true.
 Proof. exact replica_heads_real. Qed.
